@@ -425,7 +425,11 @@ where
                         let o = out.borrow();
                         ctx.want_sample = !shrinking && o.samples.len() < 2 && o.evaluations % 97 == 3;
                     }
-                    (part.check)(&case, &mut ctx);
+                    if std::panic::catch_unwind(std::panic::AssertUnwindSafe(|| (part.check)(&case, &mut ctx))).is_err() {
+                        let msg = mdns_sd::verif::take_last_panic().unwrap_or_default();
+                        ctx.violations.clear();
+                        ctx.violation(format!("HARNESS/check-panicked/{}", msg.split(": ").next().unwrap_or("")), format!("the check itself panicked: {msg}"));
+                    }
                     if shrinking {
                         // Re-execution during shrinking: only the verdict matters; keep
                         // shrinking towards the *same* signature.
@@ -497,6 +501,11 @@ where
         if let Some((sig, detail, case)) = o.failure {
             if sig == "harness/abort" {
                 agg.health_failures.push(format!("{}: {}", part.name, detail));
+                continue;
+            }
+            if sig.starts_with("HARNESS/") {
+                let path = write_replay(&agg.prop, part.name, agg.seed, &sig, &detail, &case);
+                agg.health_failures.push(format!("{}: {} ({}) case saved to {}", part.name, sig, detail, path.display()));
                 continue;
             }
             if agg.new_violations.iter().any(|(s, _)| s == &sig) {
